@@ -370,49 +370,56 @@ theorem Cache.find_some {c : Cache A V} {k : Key A} {v : V} (h : c.find k = some
   · cases h
 
 /-- the invariant that makes the cache sound: identities are never reused (every identity in the
-file system or in a cache key is older than the clock), and an entry whose key names the file's
-*current* identity holds the placement of the file's *current* content -/
+file system or in a cache key is older than the clock, and no two paths carry the same one), and
+an entry whose key names the *current* identity of a file holds the placement of that file's
+*current* content -/
 def CacheOk (f : A → C → V) (w : World A C V) : Prop :=
   (∀ p file id, w.fs p = some file → file.ident = some id → id < w.clock) ∧
+  (∀ p p' file file' id, w.fs p = some file → w.fs p' = some file' →
+      file.ident = some id → file'.ident = some id → p = p') ∧
   (∀ e ∈ w.cache, e.1.ident < w.clock ∧
-    ∀ file, w.fs e.1.path = some file → file.ident = some e.1.ident →
+    ∀ p file, w.fs p = some file → file.ident = some e.1.ident →
       e.2 = f e.1.args file.content)
 
 omit [DecidableEq A] in
 theorem cacheOk_init (f : A → C → V) : CacheOk f (World.init : World A C V) := by
-  constructor
+  refine ⟨?_, ?_, ?_⟩
   · intro p file id h; simp [World.init] at h
+  · intro p p' file file' id h; simp [World.init] at h
   · intro e he; simp [World.init] at he
 
-/-- **What a load returns is the placement of the file's content now** — whatever is in the
-cache (sound), whatever `lru_cache` evicted or reordered. -/
-theorem load_reflects_current_content (f : A → C → V) (evict : Cache A V → Cache A V)
-    (w : World A C V) (hok : CacheOk f w) (p : String) (a : A) :
-    (step f evict w (.load p a)).2 = some ((w.fs p).map (fun file => f a file.content)) := by
+/-- **What a load returns is the placement of the content that the designated file has now** —
+the file that the (possibly relative) name designates under the working directory in force,
+whatever is in the (sound) cache, whatever `lru_cache` evicted or reordered. -/
+theorem load_reflects_current_content (resolve : String → String → String) (f : A → C → V)
+    (evict : Cache A V → Cache A V) (w : World A C V) (hok : CacheOk f w) (n : String) (a : A) :
+    (step resolve f evict w (.load n a)).2
+      = some ((w.fs (resolve w.wd n)).map (fun file => f a file.content)) := by
   simp only [step, memoLoad]
-  cases hfs : w.fs p with
+  cases hfs : w.fs (resolve w.wd n) with
   | none => simp
   | some file =>
     cases hid : file.ident with
     | none => simp [hid]
     | some id =>
       simp only [Option.map_some]
-      cases hfind : Cache.find w.cache ⟨p, a, id⟩ with
+      cases hfind : Cache.find w.cache ⟨n, a, id⟩ with
       | none => simp [hid, hfind]
       | some v =>
         have hm := Cache.find_some hfind
-        have := (hok.2 _ hm).2 file hfs hid
+        have := (hok.2.2 _ hm).2 _ file hfs hid
         simp only at this
         simp [hid, hfind, this]
 
-theorem step_preserves (f : A → C → V) (evict : Cache A V → Cache A V)
-    (hev : ∀ c e, e ∈ evict c → e ∈ c)
-    (w : World A C V) (hok : CacheOk f w) (ev : Ev A C) : CacheOk f (step f evict w ev).1 := by
-  obtain ⟨h1, h2⟩ := hok
+theorem step_preserves (resolve : String → String → String) (f : A → C → V)
+    (evict : Cache A V → Cache A V) (hev : ∀ c e, e ∈ evict c → e ∈ c)
+    (w : World A C V) (hok : CacheOk f w) (ev : Ev A C) :
+    CacheOk f (step resolve f evict w ev).1 := by
+  obtain ⟨h1, hu, h2⟩ := hok
   cases ev with
   | write p c st =>
     simp only [step]
-    constructor
+    refine ⟨?_, ?_, ?_⟩
     · intro q file id hq hid
       by_cases hqp : q = p
       · simp only [hqp, if_true, Option.some.injEq] at hq
@@ -424,89 +431,128 @@ theorem step_preserves (f : A → C → V) (evict : Cache A V → Cache A V)
         have := h1 q file id hq hid
         show id < w.clock + 1
         omega
+    · intro q q' file file' id hq hq' hid hid'
+      by_cases hqp : q = p <;> by_cases hqp' : q' = p
+      · rw [hqp, hqp']
+      · simp only [hqp, if_true, Option.some.injEq] at hq
+        simp only [hqp', if_false] at hq'
+        subst hq
+        have := h1 q' file' id hq' hid'
+        cases st <;> simp at hid
+        omega
+      · simp only [hqp', if_true, Option.some.injEq] at hq'
+        simp only [hqp, if_false] at hq
+        subst hq'
+        have := h1 q file id hq hid
+        cases st <;> simp at hid'
+        omega
+      · simp only [hqp, if_false] at hq
+        simp only [hqp', if_false] at hq'
+        exact hu q q' file file' id hq hq' hid hid'
     · intro e he
       have ⟨hlt, hval⟩ := h2 e he
       refine ⟨show e.1.ident < w.clock + 1 by omega, ?_⟩
-      intro file hq hid
-      by_cases hqp : e.1.path = p
+      intro q file hq hid
+      by_cases hqp : q = p
       · simp only [hqp, if_true, Option.some.injEq] at hq
         subst hq
         cases st <;> simp at hid
         omega
       · simp only [hqp, if_false] at hq
-        exact hval file hq hid
+        exact hval q file hq hid
   | remove p =>
     simp only [step]
-    constructor
+    refine ⟨?_, ?_, ?_⟩
     · intro q file id hq hid
       by_cases hqp : q = p
       · simp [hqp] at hq
       · simp only [hqp, if_false] at hq
         exact h1 q file id hq hid
+    · intro q q' file file' id hq hq' hid hid'
+      by_cases hqp : q = p
+      · simp [hqp] at hq
+      · by_cases hqp' : q' = p
+        · simp [hqp'] at hq'
+        · simp only [hqp, if_false] at hq
+          simp only [hqp', if_false] at hq'
+          exact hu q q' file file' id hq hq' hid hid'
     · intro e he
       have ⟨hlt, hval⟩ := h2 e he
       refine ⟨hlt, ?_⟩
-      intro file hq hid
-      by_cases hqp : e.1.path = p
+      intro q file hq hid
+      by_cases hqp : q = p
       · simp [hqp] at hq
       · simp only [hqp, if_false] at hq
-        exact hval file hq hid
-  | load p a =>
+        exact hval q file hq hid
+  | setwd d => exact ⟨h1, hu, h2⟩
+  | load n a =>
     simp only [step, memoLoad]
-    refine ⟨?_, ?_⟩
-    · intro q file id hq hid
-      exact h1 q file id hq hid
-    · cases hfs : w.fs p with
-      | none => exact h2
-      | some file =>
-        cases hid : file.ident with
-        | none => simpa [hid] using h2
-        | some id =>
-          cases hfind : Cache.find w.cache ⟨p, a, id⟩ with
-          | some v => simpa [hid, hfind] using h2
-          | none =>
-            simp only [hid, hfind]
-            intro e he
-            have he' := hev _ _ he
-            rcases List.mem_cons.mp he' with rfl | he''
-            · refine ⟨h1 p file id hfs hid, ?_⟩
-              intro file' hq _
-              simp only at hq
-              rw [hfs] at hq
-              simp only [Option.some.injEq] at hq
-              subst hq
-              rfl
-            · exact h2 e he''
+    refine ⟨h1, hu, ?_⟩
+    cases hfs : w.fs (resolve w.wd n) with
+    | none => exact h2
+    | some file =>
+      cases hid : file.ident with
+      | none => simpa [hid] using h2
+      | some id =>
+        cases hfind : Cache.find w.cache ⟨n, a, id⟩ with
+        | some v => simpa [hid, hfind] using h2
+        | none =>
+          simp only [hid, hfind]
+          intro e he
+          have he' := hev _ _ he
+          rcases List.mem_cons.mp he' with rfl | he''
+          · refine ⟨h1 _ file id hfs hid, ?_⟩
+            intro q file' hq hid'
+            simp only at hid'
+            have := hu q (resolve w.wd n) file' file id hq hfs hid' hid
+            subst this
+            rw [hfs] at hq
+            simp only [Option.some.injEq] at hq
+            subst hq
+            rfl
+          · exact h2 e he''
 
-/-- **For every history** of writes, removals and loads, starting from a sound cache, the cached
-loader answers every load exactly as the uncached "read the file now and place it" does. -/
-theorem run_eq_runSpec (f : A → C → V) (evict : Cache A V → Cache A V)
-    (hev : ∀ c e, e ∈ evict c → e ∈ c) (evs : List (Ev A C)) :
-    ∀ (w : World A C V), CacheOk f w → run f evict w evs = runSpec f evict w evs := by
+/-- **For every history** of writes, removals, changes of working directory and loads, starting
+from a sound cache, the cached loader answers every load exactly as the uncached "read the
+designated file now and place it" does. -/
+theorem run_eq_runSpec (resolve : String → String → String) (f : A → C → V)
+    (evict : Cache A V → Cache A V) (hev : ∀ c e, e ∈ evict c → e ∈ c) (evs : List (Ev A C)) :
+    ∀ (w : World A C V), CacheOk f w →
+      run resolve f evict w evs = runSpec resolve f evict w evs := by
   induction evs with
   | nil => intro w _; rfl
   | cons e es ih =>
     intro w hok
     simp only [run, runSpec]
-    rw [ih _ (step_preserves f evict hev w hok e)]
+    rw [ih _ (step_preserves resolve f evict hev w hok e)]
     congr 1
     cases e with
     | write p c st => rfl
     | remove p => rfl
-    | load p a => exact load_reflects_current_content f evict w hok p a
+    | setwd d => rfl
+    | load n a => exact load_reflects_current_content resolve f evict w hok n a
 
 /-- … in particular from process start (empty cache, any number of rewrites between loads). -/
-theorem run_from_start (f : A → C → V) (evict : Cache A V → Cache A V)
-    (hev : ∀ c e, e ∈ evict c → e ∈ c) (evs : List (Ev A C)) :
-    run f evict (World.init : World A C V) evs = runSpec f evict World.init evs :=
-  run_eq_runSpec f evict hev evs _ (cacheOk_init f)
+theorem run_from_start (resolve : String → String → String) (f : A → C → V)
+    (evict : Cache A V → Cache A V) (hev : ∀ c e, e ∈ evict c → e ∈ c) (evs : List (Ev A C)) :
+    run resolve f evict (World.init : World A C V) evs
+      = runSpec resolve f evict World.init evs :=
+  run_eq_runSpec resolve f evict hev evs _ (cacheOk_init f)
 
 end memo
 
 -- non-vacuity: write, load, rewrite, load — the second load sees the second content
-example : run (fun (a : Nat) (c : Nat) => a + c) (fun c => c.take 1) World.init
-    [.write "f" 10 true, .load "f" 1, .write "f" 20 true, .load "f" 1, .load "f" 1]
+example : run (fun _ n => n) (fun (a : Nat) (c : Nat) => a + c) (fun c => c.take 1) World.init
+    [.write "/f" 10 true, .load "/f" 1, .write "/f" 20 true, .load "/f" 1, .load "/f" 1]
     = [none, some (some 11), none, some (some 21), some (some 21)] := by decide
+
+-- a relative name under a working directory, with a same-named bystander under the current
+-- directory: the designated file is the one under the working directory, and its rewrite is seen
+example : run (fun wd n => if wd = "/w" ∧ n = "d/s" then "/w/d/s" else "cwd/d/s")
+    (fun (a : Nat) (c : Nat) => a + c) (fun c => c) World.init
+    [.write "cwd/d/s" 7 true, .write "/w/d/s" 10 true, .setwd "/w", .load "d/s" 1,
+     .write "/w/d/s" 20 true, .load "d/s" 1]
+    = [none, none, none, some (some 11), none, some (some 21)] := by decide
 
 /-- counter-witness for the code before the repair (`lru_cache` keyed on the arguments only): a
 file rewritten between two loads is served stale -/
@@ -514,10 +560,21 @@ example :
     let f := fun (a : Nat) (c : Nat) => a + c
     let fs1 : FS Nat := fun p => if p = "f" then some ⟨some 1, 10⟩ else none
     let fs2 : FS Nat := fun p => if p = "f" then some ⟨some 2, 20⟩ else none
-    let r1 := memoLoadStale f [] fs1 "f" 1
-    let r2 := memoLoadStale f r1.2 fs2 "f" 1
+    let r1 := memoLoadStale f [] fs1 "f" "f" 1
+    let r2 := memoLoadStale f r1.2 fs2 "f" "f" 1
     r2.1 = some 11 ∧ (fs2 "f").map (fun file => f 1 file.content) = some 21 := by decide
 
+/-- counter-witness for a repair that takes the identity from the name as given instead of from
+the file that is read (seeded defect C20-2): the unchanging bystander keeps the stale entry alive -/
+example :
+    let f := fun (a : Nat) (c : Nat) => a + c
+    let fs1 : FS Nat := fun p => if p = "d/s" then some ⟨some 1, 7⟩ else
+                                 if p = "/w/d/s" then some ⟨some 2, 10⟩ else none
+    let fs2 : FS Nat := fun p => if p = "d/s" then some ⟨some 1, 7⟩ else
+                                 if p = "/w/d/s" then some ⟨some 3, 20⟩ else none
+    let r1 := memoLoadUnresolvedIdent f [] fs1 "d/s" "/w/d/s" 1
+    let r2 := memoLoadUnresolvedIdent f r1.2 fs2 "d/s" "/w/d/s" 1
+    r2.1 = some 11 ∧ (fs2 "/w/d/s").map (fun file => f 1 file.content) = some 21 := by decide
 
 /-! ### text images: separator detection -/
 
